@@ -1,2 +1,62 @@
-(* C10 — non-vacuity examples. *)
-From GL Require Import Stack.Registry Stack.StackApi.
+(* C10 — non-vacuity: concrete, non-trivial states meeting the hypotheses of Properties/C10.v. *)
+From GL Require Import Stack.Registry Stack.RegSpec Stack.StackApi Stack.ArrayFacts
+  Stack.RegistryFacts Stack.StackApiFacts Stack.CallContractFacts.
+From Coq Require Import Lia.
+
+Definition n (z : Z) : cell := Some (VInt z).
+
+(* a registry of 12 cells, growable to 40, holding 3 callers' cells and a 3-element activation,
+   with stale contents above the top *)
+Definition pre0 := [n 100; Some (VRef 1); n 102].
+Definition l0 := [n 1; Some VNil; n 3].
+Definition r0 : registry := mkReg (pre0 ++ l0 ++ [n 77; None; n 78] ++ fresh 3) 6 4 40.
+
+Example r0_rel : Rr r0 (pre0 ++ l0) 40.
+Proof. constructor; vm_compute; try reflexivity; try discriminate. left. discriminate. Qed.
+
+(* a script with valid, zero, top+1, -(top+1) and far indices, growth of the registry, an underflow *)
+Definition script : list aop :=
+  [AGet 0; AGet 4; AGet (-4); AGet 1000; AGet (-3); AInsert (VInt 5) 0; AInsert (VInt 6) (-1); AInsert (VInt 7) 6;
+   ARemove (-6); ARemove 7; ARemove 2; AReplace (-1) (VInt 8); AReplace 9 (VInt 8); ASetTop 12; ASetTop (-3); AGetTop;
+   APush (VInt 9); ASetTop (-100); APush (VInt 1); APop 2].
+Example script_dom : L_dom l0 script = true. Proof. vm_compute. reflexivity. Qed.
+Example script_fits : L_fits (len pre0) 40 l0 script = true. Proof. vm_compute. reflexivity. Qed.
+Example script_run :
+  fst (arun r0 (len pre0) script) = fst (L_run l0 script) /\
+  exists lim', 40 <= lim' /\ Rr (snd (arun r0 (len pre0) script)) (pre0 ++ snd (L_run l0 script)) lim'.
+Proof. apply api_refines_list_lemma; [exact r0_rel|exact script_dom|exact script_fits]. Qed.
+Example script_ends_raised : snd (L_run l0 script) = [Some VMsg] /\ length (fst (L_run l0 script)) = 20%nat.
+Proof. vm_compute. auto. Qed.
+(* the model really grew the registry (12 cells at the start) *)
+Example script_grew : 12 < cap (snd (arun r0 (len pre0) script)).
+Proof. vm_compute. reflexivity. Qed.
+
+Example settop_ex : exists r', SetTop r0 4 = Ok r' /\ Rr r' (resizeN (pre0 ++ l0) 4) 40 /\
+   (forall i, 4 <= i < len (pre0 ++ l0) -> rd (arr r') i = None) /\ (forall i, len (pre0 ++ l0) <= i < 4 -> rd (arr r') i = cNil).
+Proof. apply settop_spec_lemma; [exact r0_rel|lia]. Qed.
+
+(* a host function frame: function at register 3, two junk values, three results *)
+Definition rG : registry := mkReg (pre0 ++ [Some (VRef 9); n 50; n 51; n 1; n 2; n 3] ++ fresh 4) 9 0 0.
+Example rG_rel : Rr rG (pre0 ++ Some (VRef 9) :: [n 50; n 51] ++ [n 1; n 2; n 3]) 13.
+Proof. constructor; vm_compute; try reflexivity; try discriminate. left. discriminate. Qed.
+Example gresults_pad : exists r', gReturn rG 3 3 5 = Ok r' /\ Rr r' (pre0 ++ adjust 5 [n 1; n 2; n 3]) 13.
+Proof. apply (gfunction_results_lemma rG pre0 (Some (VRef 9)) [n 50; n 51] [n 1; n 2; n 3] 5 13 rG_rel); vm_compute; discriminate. Qed.
+Example gresults_trunc : exists r', gReturn rG 3 3 1 = Ok r' /\ Rr r' (pre0 ++ adjust 1 [n 1; n 2; n 3]) 13.
+Proof. apply (gfunction_results_lemma rG pre0 (Some (VRef 9)) [n 50; n 51] [n 1; n 2; n 3] 1 13 rG_rel); vm_compute; discriminate. Qed.
+Example gresults_mult : exists r', gReturn rG 3 3 MultRet = Ok r' /\ Rr r' (pre0 ++ adjust MultRet [n 1; n 2; n 3]) 13.
+Proof. apply (gfunction_results_lemma rG pre0 (Some (VRef 9)) [n 50; n 51] [n 1; n 2; n 3] MultRet 13 rG_rel); vm_compute; discriminate. Qed.
+
+(* OP_RETURN 2 3 (two values from register 2) with 4 wanted *)
+Example lresults : exists r', luaReturn rG 4 2 3 3 4 = Ok r' /\
+   Rr r' (pre0 ++ adjust 4 (luaResults [n 50; n 51; n 1; n 2; n 3] 2 3)) 13.
+Proof.
+  apply (lua_results_lemma rG pre0 (Some (VRef 9)) [n 50; n 51; n 1; n 2; n 3] 2 3 4 13 rG_rel); vm_compute; discriminate.
+Qed.
+
+(* the whole CallByParam, succeeding and failing *)
+Example call_ok : exists r' lim', callByParamG r0 (Some (VRef 5)) [n 30; n 31] [n 60] [n 1; n 2] 3 false = Ok (r', false) /\
+   40 <= lim' /\ Rr r' (pre0 ++ l0 ++ adjust 3 [n 1; n 2]) lim'.
+Proof. apply (call_contract_lemma r0 pre0 l0 _ _ _ _ 3 false 40 r0_rel); vm_compute; discriminate. Qed.
+Example call_fail : exists r' lim', callByParamG r0 (Some (VRef 5)) [n 30; n 31] [n 60] [n 1; n 2] 3 true = Ok (r', true) /\
+   40 <= lim' /\ Rr r' (pre0 ++ l0 ++ []) lim'.
+Proof. apply (call_contract_lemma r0 pre0 l0 _ _ _ _ 3 true 40 r0_rel); vm_compute; discriminate. Qed.
